@@ -71,6 +71,41 @@ def run_bounded(prop, repo, tier, seed):
     return rec
 
 
+RTC_PROPS = {"C01", "C02", "C04", "C06", "C07", "C09", "C12", "C13", "C14", "C16", "C17", "C20"}
+
+
+def run_rtc(prop, repo, tier):
+    """thorough tier: the repository's own test suite with the property's runtime contracts installed on the real
+    functions (rtc/plugin.py).  Bounded stand-in; evaluations are counted per contract."""
+    if tier != "thorough" or prop not in RTC_PROPS or not os.path.isdir(os.path.join(repo, "nptdms", "test")):
+        return None
+    import tempfile
+    fd, out = tempfile.mkstemp(prefix="rtc_", suffix=".json")
+    os.close(fd)
+    env = dict(os.environ)
+    env["PYTHONPATH"] = HERE + os.pathsep + repo
+    env["PYTHONDONTWRITEBYTECODE"] = "1"
+    env["RTC_OUT"] = out
+    env["RTC_ONLY"] = prop
+    t0 = time.time()
+    try:
+        p = subprocess.run([PY_RT, "-m", "pytest", "-q", "-p", "no:cacheprovider", "-p", "rtc.plugin", "--timeout=900",
+                            "-x", "-W", "ignore", os.path.join(repo, "nptdms", "test")],
+                           capture_output=True, text=True, env=env, cwd=repo, timeout=1800)
+        with open(out) as f:
+            rec = json.load(f)
+        rec["pytest_tail"] = p.stdout.strip().splitlines()[-1:] if p.stdout.strip() else []
+    except Exception as e:
+        rec = {"error": "runtime-contract run failed: %r" % (e,)}
+    finally:
+        try:
+            os.unlink(out)
+        except OSError:
+            pass
+    rec["wall_s"] = round(time.time() - t0, 2)
+    return rec
+
+
 def match_known(known, prop, key):
     for f in known.get("findings", []):
         if f.get("property") == prop and re.search(f["match"], key):
@@ -92,8 +127,9 @@ def run_property(prop, repo, tier, seed, jobs, only=None, t0=None):
         work = []
         for n in names:
             h = H.HARNESSES[n]
-            if len(h.variants) > 1 and h.split_variants:
-                work.extend((n, repo, tier, seed, vi, 1) for vi in range(len(h.variants)))
+            nv = len(h.variants_for(tier))
+            if nv > 1 and (h.split_variants or (tier == "thorough" and h.thorough_variants)):
+                work.extend((n, repo, tier, seed, vi, 1) for vi in range(nv))
             else:
                 work.append((n, repo, tier, seed, None, 1))
         inner = max(1, jobs // max(1, len(work)))
@@ -108,6 +144,12 @@ def run_property(prop, repo, tier, seed, jobs, only=None, t0=None):
         else:
             recs = [_run(w) for w in work]
     bounded = run_bounded(prop, repo, tier, seed)
+    rtc = run_rtc(prop, repo, tier)
+    if rtc is not None and bounded is not None and not rtc.get("error"):
+        # runtime-contract firings are reported like bounded stand-in violations (observed on the real code)
+        for v in rtc.get("violations", []):
+            bounded.setdefault("violations", []).append(
+                {"key": "rtc/" + v["contract"], "detail": v["detail"], "script": None})
 
     obligations = 0
     bounded_dis = 0
@@ -272,6 +314,11 @@ def run_property(prop, repo, tier, seed, jobs, only=None, t0=None):
         coverage["distinct_nontrivial"] = max(2, int(bounded.get("distinct_nontrivial") or 0)) \
             if bounded.get("distinct_nontrivial") else 0
         coverage["rule"] = bounded.get("rule", "")
+    if rtc is not None:
+        coverage["runtime_contracts_on_repo_test_suite"] = {
+            "evaluations_per_contract": rtc.get("evaluations"), "violations": len(rtc.get("violations", []) or []),
+            "pytest": rtc.get("pytest_tail"), "error": rtc.get("error"), "wall_s": rtc.get("wall_s"),
+            "label": "bounded: contracts evaluated at run time on the calls the repository's tests make"}
     level = P.get(prop, "level", "other")
     if level == "proof" and level_claim != "proof":
         level = "other"
